@@ -531,7 +531,25 @@ fn first_errors(diag: &str) -> String {
 }
 
 fn build_case(raw: &RawE2, which: Which, st: &mut Stats) -> Option<(E2Case, Analysis, cfg::Shape)> {
-    let (spec, source) = gen::build(&raw.grammar);
+    let (mut spec, mut source) = gen::build(&raw.grammar);
+    // a compile costs ~0.2 s: three of four grammars that turn out tiny (<= 5 LALR states, or an empty / {ε}
+    // language) are replaced by an edited, conflict-repaired seed grammar built from the same raw value
+    if raw.choices[1] % 4 != 0 {
+        let c = spec.cfg();
+        let tiny = match Analysis::new(&c) {
+            Ok(a) => a.lalr.states.len() <= 5 || !a.sets.productive[c.start as usize] || a.sets.first[c.start as usize] == 0,
+            Err(_) => false,
+        };
+        if tiny {
+            let mut g2 = raw.grammar.clone();
+            g2.source = 3;
+            g2.seed_ix = g2.seed_ix.wrapping_add(raw.choices[2]);
+            let (s2, src2) = gen::build(&g2);
+            spec = s2;
+            source = src2;
+            st.class("gen:tiny-grammar-replaced-by-edited-seed");
+        }
+    }
     let cfg = spec.cfg();
     if cfg.n_n > 12 || cfg.rules.len() > 40 {
         st.discard("grammar too large for the compiled tier");
@@ -747,11 +765,11 @@ pub fn run(ctx: &Ctx, which: Which) -> i32 {
     }
     let mut c2 = ctx.clone();
     c2.shrink_iters = 48;
-    let cases = ctx.budget(640, 12_000);
+    let cases = ctx.budget(1_000, 16_000);
     let out = run_sharded(&c2, label, cases, raw_e2, |raw, st| e2_test(ctx, raw, which, st));
     rep.absorb("E2-rustc-compiled-parsers", out);
     if which != Which::C02 {
-        let out = run_sharded(ctx, &format!("{label}-tables"), ctx.budget(40_000, 800_000), gen::raw_grammar, |raw, st| table_level_test(raw, which, st));
+        let out = run_sharded(ctx, &format!("{label}-tables"), ctx.budget(100_000, 2_000_000), gen::raw_grammar, |raw, st| table_level_test(raw, which, st));
         rep.absorb("E1-table-level", out);
     }
     quota_check(&mut rep, &["inputs:accepted", "inputs:rejected", "shape:recursive", "shape:has-nullable-nonterminal"]);
